@@ -152,7 +152,7 @@ def first_diff(impl_steps, model_steps, compare_snap=True):
 # ---------------------------------------------------------------- running sessions
 ALL_FIXED = {k: True for k in ["fx_direct_all", "fx_redelivered", "fx_delete_checks_first", "fx_noack_total_once", "fx_get_count",
                                "fx_closeok_releases", "fx_excl_owner", "fx_clear_current", "fx_not_impl", "fx_empty_body",
-                               "fx_discard_closing", "fx_nowait", "fx_stage", "fx_reopen_resets"]}
+                               "fx_discard_closing", "fx_nowait", "fx_stage", "fx_reopen_resets", "fx_chan_open"]}
 
 
 def fixes_term(fx):
